@@ -11,6 +11,25 @@ open Sb Sb.Rth Sb.Parsing Sb.Proofs
 
 theorem constants : Gen.rthMaxDuration = 16777216 := rfl
 
+/-- the numbering of `sb_rth_action_t` in the public header (regenerated on every run) is the one the model decodes:
+0 = same as previous, 1 = land, 2 = go to keeping altitude, 3 = go to with altitude -/
+theorem actions_match_format :
+    Gen.rthActions = [("SB_RTH_ACTION_SAME_AS_PREVIOUS", 0), ("SB_RTH_ACTION_LAND", 1),
+      ("SB_RTH_ACTION_GO_TO_KEEPING_ALTITUDE", 2), ("SB_RTH_ACTION_GO_TO_WITH_ALTITUDE", 3)] := by decide
+
+/-- the model's "has a target" / "has an altitude" tests are the library's, written with its enumerators
+(`sb_i_rth_action_has_target`, `sb_i_rth_action_has_altitude`), and an encoded `SAME_AS_PREVIOUS` keeps the action -/
+theorem action_predicates (a : Nat) :
+    hasTarget a = (a == Gen.SB_RTH_ACTION_GO_TO_KEEPING_ALTITUDE || a == Gen.SB_RTH_ACTION_GO_TO_WITH_ALTITUDE) ∧
+    hasAlt a = (a == Gen.SB_RTH_ACTION_GO_TO_WITH_ALTITUDE) ∧
+    (∀ flags, (flags >>> 4) &&& 0x03 = Gen.SB_RTH_ACTION_SAME_AS_PREVIOUS → resolveAction flags a = a) ∧
+    (∀ t : F32, ({ time := t } : Entry).action = Gen.SB_RTH_ACTION_LAND) := by
+  refine ⟨rfl, rfl, ?_, fun _ => rfl⟩
+  intro flags h
+  unfold resolveAction
+  have h0 : (flags >>> 4) &&& 0x03 = 0 := h
+  rw [if_pos h0]
+
 /-- state of the entry scan: (offset, cumulative seconds, entry so far, point index) -/
 abbrev ScanState := Nat × Nat × Entry × Nat
 
